@@ -108,7 +108,9 @@ class TimeTicks(Integer):
         value: Union[timedelta, int, _SENTINEL_UNINITIALISED] = UNINITIALISED,
     ) -> None:
         if isinstance(value, timedelta):
-            value = int(value.total_seconds() * 100)
+            # Integer arithmetic. Going through floating-point seconds loses
+            # a tick for many values (0.29s * 100 = 28.999...)
+            value = value // timedelta(milliseconds=10)
         super().__init__(value)
 
     def pythonize(self) -> Optional[timedelta]:  # type: ignore
